@@ -187,7 +187,15 @@ def main() -> int:
     finally:
         shutil.rmtree(root, ignore_errors=True)
     out = HERE / "selftest_results.json"
-    out.write_text(json.dumps({"results": results}, indent=1) + "\n")
+    merged = {"results": []}
+    if args.only and out.exists():
+        try:
+            merged = json.loads(out.read_text())
+        except Exception:
+            merged = {"results": []}
+    done = {r["mutation"] for r in results}
+    merged["results"] = [r for r in merged.get("results", []) if r.get("mutation") not in done] + results
+    out.write_text(json.dumps(merged, indent=1) + "\n")
     missed = [r for r in results if not r["ok"]]
     print(f"selftest: {len(results) - len(missed)}/{len(results)} mutations detected; results in {out}")
     return 1 if missed else 0
